@@ -339,3 +339,57 @@ func writeJSON(path string, v any) {
 		fmt.Printf("calcsa: %v\n", err)
 	}
 }
+
+// RunEngine runs one engine and prints everything it produced (debugging aid).
+func RunEngine(cfg Config, name string) int {
+	e := engines[name]
+	if e == nil {
+		fmt.Println("unknown engine", name)
+		return 2
+	}
+	prog, err := load.Load(cfg.Repo)
+	if err != nil {
+		fmt.Println(err)
+		return 1
+	}
+	res := e.result(prog, cfg.Tier)
+	cnt := map[string][3]int{}
+	obls := append([]oblig.Obligation(nil), res.Obls...)
+	oblig.SortObls(obls)
+	for _, o := range obls {
+		c := cnt[o.Rule]
+		switch o.Verdict {
+		case oblig.Discharged:
+			c[0]++
+		case oblig.Violated:
+			c[1]++
+		default:
+			c[2]++
+		}
+		cnt[o.Rule] = c
+		if o.Verdict != oblig.Discharged || cfg.Verbose {
+			fmt.Printf("%s: %s: %s: %s: %s\n", o.Pos, o.Rule, o.Verdict, o.Key, o.Detail)
+			if o.Verdict != oblig.Discharged {
+				for i, w := range o.Witness {
+					if i > 25 {
+						break
+					}
+					fmt.Println("      " + w)
+				}
+			}
+		}
+	}
+	for _, n := range res.Notes {
+		fmt.Println("note:", n)
+	}
+	var rules []string
+	for r := range cnt {
+		rules = append(rules, r)
+	}
+	sort.Strings(rules)
+	for _, r := range rules {
+		fmt.Printf("rule %-6s discharged %4d violated %3d undecided %3d\n", r, cnt[r][0], cnt[r][1], cnt[r][2])
+	}
+	fmt.Printf("engine %s: %.1fs\n", name, e.wall)
+	return 0
+}
